@@ -30,12 +30,15 @@ pub enum DtOp {
     AsOff(i32),
     Set(usize, i64),
     Clear(usize),
+    /// 0 add_months 1 sub_months 2 add_years 3 sub_years
+    Cal(usize, u32),
 }
 
 #[derive(Clone, Copy, PartialEq, Eq)]
 pub enum DtMenu {
     Arithmetic,
     SetClear,
+    Calendar,
 }
 
 #[derive(Clone, Debug)]
@@ -111,6 +114,12 @@ pub fn dt_apply(real: &DateTime, op: &DtOp) -> Out<DateTime> {
                 Out::Err(e) => Out::Err(e),
             }
         }
+        DtOp::Cal(o, n) => call(|| match o {
+            0 => real.add_months(*n),
+            1 => real.sub_months(*n),
+            2 => real.add_years(*n),
+            _ => real.sub_years(*n),
+        }),
         DtOp::Clear(u) => call(|| match u {
             0 => real.clear_until_year(),
             1 => real.clear_until_month(),
@@ -174,6 +183,30 @@ pub fn dt_expect(inst: i128, off: i32, op: &DtOp) -> Expect {
                     }
                 }
                 None => Expect::Refuse,
+            }
+        }
+        DtOp::Cal(o, n) => {
+            // judged only where the local date equals the UTC date (the statement does not say which
+            // day of month is kept otherwise)
+            let (day, nod) = ins::split(inst);
+            if ins::split(inst + off as i128 * ins::NS).0 != day {
+                return Expect::Skip;
+            }
+            let months = match o {
+                0 => *n as i64,
+                1 => -(*n as i64),
+                2 => *n as i64 * 12,
+                _ => -(*n as i64) * 12,
+            };
+            match cal::day_add_months(day, months) {
+                Some(d2) => {
+                    if ins::split(ins::join(d2, nod) + off as i128 * ins::NS).0 != d2 {
+                        Expect::Skip
+                    } else {
+                        Expect::Value(ins::join(d2, nod), off)
+                    }
+                }
+                None => Expect::Panic,
             }
         }
         DtOp::Clear(u) => {
@@ -255,6 +288,7 @@ pub fn op_to_json(op: &DtOp) -> Value {
         DtOp::AsOff(o) => json!({"t": "as_offset", "off": o}),
         DtOp::Set(f, v) => json!({"t": "set", "field": f, "v": v}),
         DtOp::Clear(u) => json!({"t": "clear", "unit": u}),
+        DtOp::Cal(o, n) => json!({"t": "cal", "op": o, "n": n}),
     }
 }
 
@@ -267,6 +301,7 @@ pub fn op_from_json(v: &Value) -> Option<DtOp> {
         "as_offset" => DtOp::AsOff(v["off"].as_i64()? as i32),
         "set" => DtOp::Set(v["field"].as_u64()? as usize, v["v"].as_i64()?),
         "clear" => DtOp::Clear(v["unit"].as_u64()? as usize),
+        "cal" => DtOp::Cal(v["op"].as_u64()? as usize, v["n"].as_u64()? as u32),
         _ => return None,
     })
 }
@@ -280,6 +315,7 @@ fn describe(op: &DtOp) -> String {
         DtOp::AsOff(_) => "DateTime::as_offset".into(),
         DtOp::Set(f, _) => format!("DateTime::set_{}", fields::SET_NAMES[*f]),
         DtOp::Clear(u) => format!("DateTime::clear_until_{}", fields::CLEAR_NAMES[*u]),
+        DtOp::Cal(o, _) => format!("DateTime::{}", ["add_months", "sub_months", "add_years", "sub_years"][*o]),
     }
 }
 
@@ -319,6 +355,21 @@ pub fn dt_menu(kind: DtMenu) -> Vec<DtOp> {
             m.push(DtOp::Unit(3, 1)); // sub_hours(1): moves across a local/UTC day boundary
             m.push(DtOp::Unit(12, 1));
         }
+        DtMenu::Calendar => {
+            for o in 0..4 {
+                let ns: &[u32] = if o < 2 { &[1, 11, 12, 13, 25, 1_200, 4_799] } else { &[1, 3, 4, 100, 400] };
+                for n in ns {
+                    m.push(DtOp::Cal(o, *n));
+                }
+            }
+            for (op, n) in [(0usize, 1u32), (1, 1), (0, 30), (1, 31), (0, 365), (1, 366)] {
+                m.push(DtOp::Unit(op, n));
+            }
+            m.push(DtOp::Unit(2, 13));
+            for o in [0, 3600, -3600] {
+                m.push(DtOp::SetOff(o));
+            }
+        }
     }
     m
 }
@@ -330,6 +381,14 @@ pub fn dt_inits(kind: DtMenu) -> Vec<(i64, u64, i32)> {
         cal::MIN_DAY + 3, cal::MAX_DAY - 3,
     ];
     let nods = [0u64, 1, 84_600_123_456_789, ab::DAY_NS - 1];
+    if kind == DtMenu::Calendar {
+        for (y, mo, d) in [(2024i64, 1u32, 31u32), (2024, 2, 29), (2023, 3, 31), (2023, 12, 31), (0, 2, 29), (-4, 2, 29), (0, 12, 31), (1, 1, 31), (-400, 2, 29), (1900, 1, 30), (2000, 8, 31), (5_879_610, 12, 31), (-5_879_609, 1, 31)] {
+            for n in [0u64, 43_200_000_000_000] {
+                v.push((cal::days_from_civil(y, mo, d), n, 0));
+            }
+        }
+        return v;
+    }
     let offs: &[i32] = if kind == DtMenu::Arithmetic { &[0, 3600] } else { &[0, 3600, -86_399] };
     for &d in &days {
         for &n in &nods {
@@ -350,7 +409,7 @@ pub fn run_datetime_machine(rep: &mut Report, depth: u8, kind: DtMenu) {
     let checker = make().checker().threads(sr_threads(rep)).spawn_bfs().join();
     let unique = checker.unique_state_count() as u64;
     let n_trans = transitions.load(Ordering::Relaxed);
-    let name = format!("E2:stateright DateTime machine ({}) depth {}", if kind == DtMenu::Arithmetic { "arithmetic" } else { "set/clear/offset" }, depth);
+    let name = format!("E2:stateright DateTime machine ({}) depth {}", match kind { DtMenu::Arithmetic => "arithmetic", DtMenu::SetClear => "set/clear/offset", DtMenu::Calendar => "month/year/day arithmetic" }, depth);
     let mut acc = Acc::default();
     acc.states = unique;
     acc.transitions = n_trans;
